@@ -6,6 +6,8 @@ namespace QV.C09
 open QV QV.Prog
 
 structure Out where
+  /-- how often the harness' independent key and the implementation's key equality disagreed -/
+  keymm : Nat
   fresh : List Instr
   v : Views
   used : List Qubit
@@ -14,7 +16,9 @@ structure Out where
 def decOut (tbl : List Instr) : Sexp → Option Out
   | .list [.atom "views", .list (.atom "new" :: nw), .list [.atom "to", a], .list [.atom "into", b],
            .list [.atom "rebuilt", c], .list [.atom "text", .str t], .list [.atom "rtext", .str rt],
-           .list [.atom "eq", e], .list [.atom "used", u], .list [.atom "rused", ru]] => do
+           .list [.atom "eq", e], .list [.atom "used", u], .list [.atom "rused", ru],
+           .list [.atom "keymm", km]] => do
+    let keymm ← km.asNat?
     let fresh ← nw.mapM decInstr
     let tbl := tbl ++ fresh
     let toL ← decPids tbl a
@@ -23,7 +27,7 @@ def decOut (tbl : List Instr) : Sexp → Option Out
     let eq ← decBool e
     let used ← decQubits u
     let rused ← decQubits ru
-    pure { fresh, v := { toL, intoL, rebuiltL, text := t, rebuiltText := rt, eq }, used, rused }
+    pure { keymm, fresh, v := { toL, intoL, rebuiltL, text := t, rebuiltText := rt, eq }, used, rused }
   | _ => none
 
 /-- calibrations of the history that are later replaced (not the last with their kind and key) -/
@@ -52,27 +56,27 @@ def handle (inp out : Sexp) : CaseResult :=
       let mv : Views := { toL := mTo, intoL := intoInstructions p, rebuiltL := toInstructions r,
                           text := print p, rebuiltText := print r, eq := progEq r p }
       let projOk := is.all Instr.projOk
-      let agree := projOk && o.fresh.isEmpty && decide (mv.toL = o.v.toL) && decide (mv.intoL = o.v.intoL) &&
+      let agree := projOk && o.keymm == 0 && o.fresh.isEmpty && decide (mv.toL = o.v.toL) && decide (mv.intoL = o.v.intoL) &&
         decide (mv.rebuiltL = o.v.rebuiltL) && mv.text == o.v.text && mv.rebuiltText == o.v.rebuiltText &&
         mv.eq == o.v.eq && setEq p.used o.used && setEq r.used o.rused
       let listingOk := checkListing is o.v.toL
       let viewsOk := viewsAgree o.v
-      let specOk := listingOk && viewsOk && o.v.eq
+      let specOk := listingOk && viewsOk && o.v.eq && o.keymm == 0
       -- known finding: everything but `==` holds, and every qubit the original has beyond the rebuilt
       -- program belongs to a calibration that a later one with the same signature replaced
       let stale := o.used.filter (fun q => !o.rused.contains q)
-      let kf := listingOk && viewsOk && !o.v.eq && subset o.rused o.used && !stale.isEmpty &&
+      let kf := o.keymm == 0 && listingOk && viewsOk && !o.v.eq && subset o.rused o.used && !stale.isEmpty &&
         stale.all (fun q => (qubitsOf (replacedCals is)).contains q)
       let nontrivial := decide (mTo ≠ is)
       let tags := s!"path-{path}" :: histTags is ++
-        (if mv.eq then ["eq"] else ["neq"]) ++
+        (if mv.eq then ["eq"] else ["neq"]) ++ (if o.keymm == 0 then [] else ["key-mismatch"]) ++
         (if kf then ["kf:C09/rebuilt-unequal-after-redefined-calibration"] else [])
       { agree, specOk, nontrivial, tags,
         detail := s!"history={showListing is} | model: to={showListing mv.toL} into={showListing mv.intoL} " ++
           s!"rebuilt={showListing mv.rebuiltL} eq={mv.eq} used={showQubits p.used} rused={showQubits r.used} | " ++
           s!"impl: to={showListing o.v.toL} into={showListing o.v.intoL} rebuilt={showListing o.v.rebuiltL} " ++
           s!"eq={o.v.eq} used={showQubits o.used} rused={showQubits o.rused} new={showListing o.fresh} " ++
-          s!"textEq={mv.text == o.v.text} rtextEq={o.v.rebuiltText == o.v.text} | listingOk={listingOk} viewsOk={viewsOk} projOk={projOk}" }
+          s!"textEq={mv.text == o.v.text} rtextEq={o.v.rebuiltText == o.v.text} | listingOk={listingOk} viewsOk={viewsOk} projOk={projOk} keyMismatches={o.keymm}" }
   | _ => .bad s!"undecodable input {inp}"
 
 end QV.C09
